@@ -227,6 +227,20 @@ def pollReady : Svc → Nat → Svc × Rdy × List Evt
   | .mw s t, w => match pollReady s w with | (s', r, l) => (.mw s' t, r, l)
   | .reenter wr k s, w => match pollReady s w with | (s', r, l) => (.reenter wr k s', r, l)
 
+/-- a new readiness round of leaf `i` begins (its capacity was consumed by a call, or it broke): its
+`poll_ready` answers `Pending` `rp` times again and then `Ready(Ok)` / `Ready(Err)`.  Nothing else
+in the tree has any readiness state, so a combinator that *remembers* an earlier answer is wrong. -/
+def rescript : Svc → Nat → Nat → Bool → Svc
+  | .leaf id cp cok rp0 rok0, i, rp, rok => if id = i then .leaf id cp cok rp rok else .leaf id cp cok rp0 rok0
+  | .fnSvc id cok, _, _, _ => .fnSvc id cok
+  | .map s f, i, rp, rok => .map (rescript s i rp rok) f
+  | .mapErr s f, i, rp, rok => .mapErr (rescript s i rp rok) f
+  | .andThen a b, i, rp, rok => .andThen (rescript a i rp rok) (rescript b i rp rok)
+  | .applyFn s kind k, i, rp, rok => .applyFn (rescript s i rp rok) kind k
+  | .wrap w s, i, rp, rok => .wrap w (rescript s i rp rok)
+  | .mw s t, i, rp, rok => .mw (rescript s i rp rok) t
+  | .reenter w k s, i, rp, rok => .reenter w k (rescript s i rp rok)
+
 /-! ## Part 2: service factories -/
 
 /-- result of building a service -/
